@@ -2,7 +2,7 @@
  * call, on the end the policy names (T-contracts).  The containers are stubs that record (operation, end). */
 #include "vx.h"
 typedef int T;
-enum { OP_NONE = 0, OP_PUSH_LEFT, OP_PUSH_RIGHT, OP_POP_LEFT, OP_POP_RIGHT, OP_EMPTY, OP_ENQUEUE, OP_TRY_DEQUEUE, OP_SIZE_APPROX };
+enum { OP_NONE = 0, OP_PUSH_LEFT, OP_PUSH_RIGHT, OP_POP_LEFT, OP_POP_RIGHT, OP_EMPTY, OP_ENQUEUE, OP_TRY_DEQUEUE, OP_SIZE_APPROX, OP_TRY_ENQUEUE };
 static int g_op; static long g_calls; static T g_pushed; static bool g_result;
 static bool rec(int op) { g_op = op; if (g_calls < 2) g_calls++; g_result = nondet_bool(); return g_result; }
 struct container { int unused; };
@@ -12,6 +12,9 @@ static bool c_pop_left(struct container *c, T *v) { return rec(OP_POP_LEFT); }
 static bool c_pop_right(struct container *c, T *v) { return rec(OP_POP_RIGHT); }
 static bool c_empty(struct container *c) { return rec(OP_EMPTY); }
 static bool c_enqueue(struct container *c, T v) { g_pushed = v; return rec(OP_ENQUEUE); }
+/* ConcurrentQueue::try_enqueue never allocates: it REFUSES the element once the pre-allocated blocks are in use (enqueue grows the
+ * queue and fails only when memory is exhausted) -- not used by the pinned back ends; recorded as a different operation */
+static bool c_try_enqueue(struct container *c, T v) { g_pushed = v; return rec(OP_TRY_ENQUEUE); }
 static bool c_try_dequeue(struct container *c, T *v) { return rec(OP_TRY_DEQUEUE); }
 static size_t g_size;
 static size_t c_size_approx(struct container *c) { rec(OP_SIZE_APPROX); return g_size; }
